@@ -149,6 +149,47 @@ def invariant_rules(run, F, E):
                     dirty = False
             elif kind == 'or_bit':
                 pass   # in-range by precondition A3 (index < CAPACITY)
+        # whole-array operations: the constant every unit / the last unit ends up with
+        if not fn.params and fn.m in ('set', 'clear'):
+            val_all = None      # value of every unit (None = unknown)
+            val_last = None
+            for kind, k, whole, tgt, conditional in effects_on_last:
+                t = ir.normalize(ir.expand(tgt, decls)) if tgt['k'] != 'var' else tgt
+                idx_const = ir.const_val(t['i']) if t['k'] == 'idx' else None
+                hits_last = whole or idx_const == (ext - 1 if ext else None)
+                if conditional:
+                    val_all = val_last = None
+                    continue
+                if kind == 'assign':
+                    if whole:
+                        val_all = val_last = k
+                    elif hits_last:
+                        val_last = k
+                    else:
+                        val_all = None
+                elif kind == 'and' and k is not None:
+                    if whole:
+                        val_all = None if val_all is None else val_all & k
+                        val_last = None if val_last is None else val_last & k
+                    elif hits_last:
+                        val_last = None if val_last is None else val_last & k
+                    else:
+                        val_all = None
+                elif kind == 'or' and k is not None:
+                    if whole:
+                        val_all = None if val_all is None else val_all | k
+                        val_last = None if val_last is None else val_last | k
+                    elif hits_last:
+                        val_last = None if val_last is None else val_last | k
+                else:
+                    val_all = val_last = None
+            want_all = 0xFF if fn.m == 'set' else 0
+            want_last = last_mask if fn.m == 'set' else 0
+            ok_full = (val_last == want_last) and (ext == 1 or val_all == want_all)
+            run.ob('C20.b', 'BitArrayT<%d>::%s() leaves every unit 0x%02X and the last unit 0x%02X (all valid bits %s)' % (
+                cap, fn.m, want_all, want_last, 'set' if fn.m == 'set' else 'clear'), ok_full, where=fn.pat,
+                detail=None if ok_full else {'every unit': val_all, 'last unit': val_last, 'capacity': cap},
+                key='BitArrayT::%s() does not %s every valid bit' % (fn.m, 'set' if fn.m == 'set' else 'clear'))
         what = 'BitArrayT<%d>::%s%s keeps bits >= CAPACITY zero (last unit mask 0x%02X)' % (
             cap, fn.m, '(i)' if fn.params and fn.m in ('set', 'clear') else '()' if not fn.params else '(other)', last_mask)
         run.ob('C20.b', what, not dirty, where=fn.pat,
